@@ -164,7 +164,7 @@ def record_and_validate(res, exe, wd, cases, prop):
 
     def rec(i):
         cp = os.path.join(wd, "cases_%d.ndjson" % i)
-        write_ndjson(cp, [{k: c[k] for k in ("id", "layout", "sched", "sleep", "faults", "mode", "noise", "werr") if k in c} for c in chunks[i]])
+        write_ndjson(cp, [{k: c[k] for k in ("id", "layout", "sched", "sleep", "faults", "mode", "noise", "werr", "su") if k in c} for c in chunks[i]])
         tp = os.path.join(wd, "trace_%d.ndjson" % i)
         run_tmv(exe, ["loop", cp], stdout_path=tp)
         return tp
@@ -204,6 +204,109 @@ def record_and_validate(res, exe, wd, cases, prop):
     return nlines, counters, bad, kn
 
 
+def startup_runs(res, exe, wd, tier):
+    """Full-stack runs (auxiliary, part of the C10 check): do_remapping_loop_these_devices itself - open_device's start-up
+    (wait until no key is down, grab; uinput set-up; tablet device), the device thread, the loop - with every system call it
+    makes on the three device nodes answered by the scripted environment. TLC enumerates the start-up schedules from
+    spec/Startup.tla (keys down at open, arrivals between the opener's calls) and checks its design-level properties;
+    the recorded start-up calls are validated against spec/StartupTrace.tla, the loop part against LoopTrace.tla.
+    Start-up clauses (SU-...) are not listed properties: they are reported as AUX lines and in the evidence, never as VIOLATION."""
+    t0 = time.time()
+    me = 3 if tier == "quick" else 4
+    with open(os.path.join(wd, "SUG.tla"), "w") as f:
+        f.write("---- MODULE SUG ----\nEXTENDS Startup\n====\n")
+    with open(os.path.join(wd, "SUG.cfg"), "w") as f:
+        f.write('SPECIFICATION FairSpec\nCONSTANTS\n  Keys = {"A", "S"}\n  MaxEvents = %d\n  Emit = TRUE\nINVARIANT TypeOK\nINVARIANT GrabOnlyAfterQuietSnapshot\n'
+                'INVARIANT GrabbedIffDone\nINVARIANT EmitSchedule\nPROPERTY Settles\nCHECK_DEADLOCK FALSE\n' % me)
+    g = TlcRun(wd, "SUG.tla", "SUG.cfg", name="SUG", workers=4, mem="4g", timeout=1200).run()
+    if g.invariant_violated() or g.other_error():
+        res.tool_errors.append("Startup.tla: %s" % (g.invariant_violated() or g.other_error()))
+        return {}
+    # the three things the start-up does NOT give must be reachable in the model (each is an invariant TLC must refute)
+    reach = {}
+    for inv in ("NoKeyDownAtGrab", "NothingLeftAtGrab", "NoKeystrokeReplayed"):
+        with open(os.path.join(wd, "SUR_%s.cfg" % inv), "w") as f:
+            f.write('SPECIFICATION Spec\nCONSTANTS\n  Keys = {"A", "S"}\n  MaxEvents = 3\n  Emit = FALSE\nINVARIANT %s\nCHECK_DEADLOCK FALSE\n' % inv)
+        r = TlcRun(wd, "SUG.tla", "SUR_%s.cfg" % inv, name="SUR_" + inv, workers=1, mem="2g", timeout=600).run()
+        reach[inv] = bool(r.invariant_violated())
+    sus = schedules_of(g)
+    lay = LAYOUTS["basic"]
+    tails = [[], [{"a": "arrK", "t": "P", "k": "S", "x": ""}, {"a": "poll", "t": "dev", "k": "", "x": "KT"}, {"a": "readK", "t": "", "k": "", "x": ""}, {"a": "readK", "t": "", "k": "", "x": ""},
+                  {"a": "poll", "t": "timeout", "k": "", "x": "timed"}, {"a": "arrK", "t": "R", "k": "S", "x": ""}, {"a": "poll", "t": "dev", "k": "", "x": "KT"}, {"a": "readK", "t": "", "k": "", "x": ""}]]
+    cases = []
+    for i, su in enumerate(sus):
+        cases.append({"id": "FS-%d" % i, "layout": lay, "sched": tails[i % 2], "sleep": "no", "faults": 0, "mode": "full", "noise": i % 4, "su": su})
+    if not cases:
+        res.tool_errors.append("Startup.tla printed no schedule")
+        return {}
+    nchunks = max(1, min(PROCS, len(cases) // 40 or 1))
+    traces = []
+    for i in range(nchunks):
+        cp = os.path.join(wd, "fs_cases_%d.ndjson" % i)
+        write_ndjson(cp, cases[i::nchunks])
+        tp = os.path.join(wd, "fs_trace_%d.ndjson" % i)
+        run_tmv(exe, ["loop", cp], stdout_path=tp)
+        traces.append(tp)
+    with open(os.path.join(wd, "ST.tla"), "w") as f:
+        f.write("---- MODULE ST ----\nEXTENDS StartupTrace\n====\n")
+    with open(os.path.join(wd, "ST.cfg"), "w") as f:
+        f.write("SPECIFICATION Spec\nPOSTCONDITION Accepted\nCHECK_DEADLOCK FALSE\n")
+    with open(os.path.join(wd, "LT.tla"), "w") as f:
+        f.write("---- MODULE LT ----\nEXTENDS LoopTrace\nMCKnown == %s\n====\n" % tla_set(known_ids()))
+    with open(os.path.join(wd, "LT.cfg"), "w") as f:
+        f.write("SPECIFICATION Spec\nCONSTANTS\n  KnownIds <- MCKnown\nPOSTCONDITION Accepted\nCHECK_DEADLOCK FALSE\n")
+    sruns = [TlcRun(wd, "ST.tla", "ST.cfg", env={"TRACE": t}, name="st%d" % i, deque=True, mem="3g", timeout=1200) for i, t in enumerate(traces)]
+    lruns = [TlcRun(wd, "LT.tla", "LT.cfg", env={"TRACE": t}, name="fslt%d" % i, deque=True, mem="3g", timeout=1200) for i, t in enumerate(traces)]
+    run_tlc_many(sruns + lruns)
+    regs = [0] * 5
+    subad, loopbad = [], []
+    for r in sruns:
+        err = r.other_error()
+        acc = r.printed("SU-ACCEPTED")
+        if err or not acc:
+            res.tool_errors.append("%s: %s" % (r.name, err or "no acceptance line"))
+            continue
+        v = parse_tla_value(acc[0])
+        if v[1] != v[2]:
+            res.tool_errors.append("%s: start-up trace not consumed: %d of %d lines" % (r.name, v[1], v[2]))
+        regs = [a + b for a, b in zip(regs, v[3])]
+        for line in r.printed("SU-BAD"):
+            pv = parse_tla_value(line)
+            subad.append((pv[1], sorted(pv[2])))
+    for r in lruns:
+        err = r.other_error()
+        acc = r.printed("ACCEPTED")
+        if err or not acc:
+            res.tool_errors.append("%s: %s" % (r.name, err or "no acceptance line"))
+            continue
+        v = parse_tla_value(acc[0])
+        if v[1] != v[2]:
+            res.tool_errors.append("%s: full-stack trace not consumed by LoopTrace: %d of %d lines" % (r.name, v[1], v[2]))
+        loopbad += [(parse_tla_value(l)[1], sorted(parse_tla_value(l)[2])) for l in r.printed("BAD")]
+        res.drift += [l[:600] for l in r.printed("DRIFT")]
+    env = [(t, c) for t, cl in subad for c in cl if c.startswith("ENV-")]
+    if env:
+        res.tool_errors.append("the recorder's start-up environment misbehaved: %s" % env[:3])
+    aux = {}
+    for t, cl in subad:
+        for c in cl:
+            if not c.startswith("ENV-"):
+                aux.setdefault(c, []).append(t)
+    for c, ts in sorted(aux.items()):
+        log("AUX: start-up (not a listed property): %s in %d full-stack runs, e.g. %s" % (c, len(ts), ts[0]))
+    log("[startup] Startup.tla: %d states, %d start-up schedules; %d full-stack runs of do_remapping_loop_these_devices (open_device + thread + loop), %d with a key down at open, "
+        "%d grabs, %d uinput set-ups judged, %d start-ups leave unread events to the loop; start-up clauses failing: %d; %.1fs"
+        % (g.counts()[1], len(sus), regs[0], regs[1], regs[2], regs[3], regs[4], len(aux), time.time() - t0))
+    by_id = {c["id"]: c for c in cases}
+    return {"cases": by_id, "loopbad": loopbad,
+            "evidence": {"startup_model_states": g.counts()[1], "startup_schedules": len(sus), "full_stack_runs": regs[0], "with_a_key_down_at_open": regs[1], "grabs_judged": regs[2],
+                         "uinput_setups_judged": regs[3], "startups_leaving_unread_events_to_the_loop": regs[4], "startup_clauses_failing": {c: len(t) for c, t in aux.items()},
+                         "design_observations_reachable_in_Startup_tla": reach,
+                         "note": "auxiliary: the start-up is not one of the listed properties; Startup.tla documents what it gives (grab only after a snapshot with no key down; settles when "
+                                 "the keys are released) and what it does not (a key can go down between the snapshot and the grab; events typed before the grab stay in the buffer and "
+                                 "are replayed through the mapper although the system has already seen them)"}}
+
+
 def clause_prop(c):
     """C11-chord-content -> C11; KNOWN-D4-C11-... -> C11; ENV-... -> ENV"""
     parts = c.split("-")
@@ -238,7 +341,7 @@ def digest(res, prop, cases, bad, kn):
         if mine:
             c = by_id.get(base_id(tid))
             if nrep < 10:
-                res.violation(",".join(mine), {"engine": "E2-loop-trace", "trace_id": tid, "layout": c["layout"], "sched": c["sched"], "sleep": c["sleep"], "fault": fault_of(tid), "mode": c.get("mode", "scripted"), "noise": c.get("noise", 0), "werr": c.get("werr", 5),
+                res.violation(",".join(mine), {"engine": "E2-loop-trace", "trace_id": tid, "layout": c["layout"], "sched": c["sched"], "sleep": c["sleep"], "fault": fault_of(tid), "mode": c.get("mode", "scripted"), "noise": c.get("noise", 0), "werr": c.get("werr", 5), "su": c.get("su", []),
                                                "how": "bin/check %s --replay <this file> runs the real loop under this schedule again and lets TLC validate the trace" % prop})
                 nrep += 1
             else:
@@ -280,7 +383,7 @@ def check(prop, tier, replay_file=None):
         wd = workdir("%s-%s" % (prop, "replay" if replay_file else tier))
         if replay_file:
             rp = json.load(open(replay_file))
-            cases = [{"id": "replay", "layout": rp["layout"], "sched": rp["sched"], "sleep": rp.get("sleep", "no"), "faults": rp.get("fault", 0), "mode": rp.get("mode", "scripted"), "noise": rp.get("noise", 0), "werr": rp.get("werr", 5)}]
+            cases = [{"id": "replay", "layout": rp["layout"], "sched": rp["sched"], "sleep": rp.get("sleep", "no"), "faults": rp.get("fault", 0), "mode": rp.get("mode", "scripted"), "noise": rp.get("noise", 0), "werr": rp.get("werr", 5), "su": rp.get("su", [])}]
             nlines, counters, bad, kn = record_and_validate(res, exe, wd, cases, prop)
             for l in open(os.path.join(wd, "trace_0.ndjson")):
                 log("  " + l.strip()[:400])
@@ -298,6 +401,12 @@ def check(prop, tier, replay_file=None):
             return res.finish()
         runs_cases = variants(prop, tier, cases)
         nlines, counters, bad, kn = record_and_validate(res, exe, wd, runs_cases, prop)
+        fs = {}
+        if prop == "C10" and not res.tool_errors:
+            fs = startup_runs(res, exe, wd, tier)
+            if fs:
+                runs_cases = runs_cases + list(fs["cases"].values())
+                bad = bad + fs["loopbad"]
         digest(res, prop, runs_cases, bad, kn)
         regs = dict(zip(REGS, counters))
         s0 = cases[len(cases) // 2]
@@ -322,6 +431,8 @@ def check(prop, tier, replay_file=None):
                     "DevInputWriter) with its epoll_wait/read/write calls answered by the same scripted environment and evdev-style framing noise; "
                     "traces_validated_against_impl = traces fully consumed and judged",
         }
+        if fs:
+            cov["full_stack_startup"] = fs["evidence"]
         if prop == "C20":
             cov.update({"evaluations": regs["traces"], "distinct_nontrivial": regs["failing_calls_judged"],
                         "rule": cov["rule"] + ". Fault enumeration: for each selected schedule a fault-free run, then one run per driver call index k with the k-th call returning Err; "
